@@ -552,7 +552,12 @@ impl<'a> DatumGen<'a> {
                     out.extend_from_slice(c.encode_utf8(&mut b).as_bytes());
                 }
                 5 => out.extend_from_slice(b"\\\""),
-                6 => out.extend_from_slice(b"\\\\"),
+                6 if self.rng.coin() => out.extend_from_slice(b"\\\\"),
+                6 => {
+                    // raw line ends and other control bytes inside the literal
+                    // (multi-line strings are ordinary text)
+                    out.extend_from_slice(*self.rng.pick(&[&b"\n"[..], b"\r\n", b"\r", b"\t", b"\x0c", b"\n\n", b"\r\r\n"]));
+                }
                 _ => {
                     if self.f.string == 0 {
                         let e: &[u8] = *self.rng.pick(&[
@@ -683,7 +688,7 @@ const FRAGMENTS: &[&[u8]] = &[
     b"#b102", b"#o8", b"#d1.5", b"#x-", b"#%", b"#%app", b"nil", b"t", b"foo", b"a.b", b"...",
     b"|", b"{", b"}", b"\x00", b"\x7f", b"\xc3", b"\xc3\xa9", b"\xe2\x82", b"\xe2\x82\xac",
     b"\xf0\x9f\x98\x80", b"\xf0\x9f", b"\xc0\xaf", b"\xed\xa0\x80", b"\xf4\x90\x80\x80", b"\xff",
-    b"\x80", b"\xce\xbb", b"1a", b"12ab", b"1+", b"#!eof", b"#;", b"#|", b"|#",
+    b"\x80", b"\xce\xbb", b"1a", b"12ab", b"1+", b"#!eof", b"#;", b"#|", b"|#", b"\"a\r\nb\"", b"\"a\nb\"", b"\"a\rb\"", b"\"\n", b"\r\n",
 ];
 
 /// A numeric literal built around the boundaries of the scanner's arithmetic:
